@@ -1360,7 +1360,7 @@ def enumerate_edits(ctx, out, prop, hooks_factory, cfg, stats, quick_per_motif=1
         if not m:
             continue
         programs.append((mi, m, False))
-        if cfg.get("uncached_variants") and (ctx.tier == "thorough" or m not in MOTIFS_DAG):
+        if cfg.get("uncached_variants") and m not in MOTIFS_DAG:
             for vi, v in enumerate(uncached_variants(m)):
                 programs.append(("%s.u%d" % (mi, vi), v, True))
     for mi, m, variant in programs:
@@ -1402,9 +1402,11 @@ def enumerate_edits(ctx, out, prop, hooks_factory, cfg, stats, quick_per_motif=1
             edits = [e for e in edits if e[0] != "set_value"]
         extra = isinstance(mi, int) and mi >= nbase
         per = quick_per_motif if not variant else 4
-        # the asymmetric inheritance graphs are large (7-8 spaces): in the quick tier the edits that take a definer or a
-        # base relation away (cfg["enum_always"]) and a small sample of the others, no pairs, no uncached variants
-        dag = m in MOTIFS_DAG and ctx.tier != "thorough"
+        # the asymmetric inheritance graphs are large (7-8 spaces, 180-360 single edits): in the quick tier the edits
+        # that take a definer or a base relation away (cfg["enum_always"]) and a small sample of the others, no pairs;
+        # in the thorough tier every single edit and a sample of the structured pairs; no uncached variants
+        is_dag = m in MOTIFS_DAG
+        dag = is_dag and ctx.tier != "thorough"
         if (extra and cfg.get("extra_light")) or dag:
             per = 6
         chosen = edits if ctx.tier == "thorough" else rng.sample(edits, min(len(edits), per))
@@ -1425,11 +1427,12 @@ def enumerate_edits(ctx, out, prop, hooks_factory, cfg, stats, quick_per_motif=1
         if first and second and not light:
             allpairs = [[a, b] for a in first for b in second]
             # (the extended families hold the (clearing edit, reference edit) pairs already: a smaller sample here)
-            for pr in (allpairs if ctx.tier == "thorough" else rng.sample(allpairs, min(len(allpairs), 4 if ext else 10))):
+            for pr in (allpairs if ctx.tier == "thorough" and not is_dag else
+                       rng.sample(allpairs, min(len(allpairs), 60 if is_dag else 4 if ext else 10))):
                 seqs.append(pr)
         # a base edit followed by an unrelated structural edit (orders must survive graph copies) - a matter of the
         # structural properties, not run in the quick tier of the value properties (`ext`)
-        for e in [e for e in edits if e[0] == "add_bases" and len(e[2]) == 2][:(99 if ctx.tier == "thorough" else 4 if not (light or ext) else 0)]:
+        for e in [e for e in edits if e[0] == "add_bases" and len(e[2]) == 2][:((12 if is_dag else 99) if ctx.tier == "thorough" else 4 if not (light or ext) else 0)]:
             seqs.append([e, ["new_space", "-", "D" if not any(p == "D" for p in [x[2] for x in m if x[0] == "new_space"]) else "B", []]])
         seqs += extseqs
         stats["enumerated_ext_sequences"] += len(extseqs)
